@@ -4,8 +4,19 @@ package rtpfragmented
 
 // Contracts checked by /verif/govc (see /verif/DESIGN.md). Comment-only file.
 
+// sumlen(s, n): total number of bytes in the first n fragments.
+//@ ufun sumlen(s [][]byte, n int) int
+//@   axiom sumlen(s, 0) == 0
+//@   axiom n >= 0 ==> sumlen(s, n+1) == sumlen(s, n) + len(s[n])
+//@   trigger sumlen(s, n+1)
+//@   lemma[n; t [][]byte] (forall k :: 0 <= k && k < n ==> len(s[k]) == len(t[k])) ==> sumlen(s, n) == sumlen(t, n)
+//@   trigger sumlen(s, n)
+//@   trigger sumlen(t, n)
+
+// The retained bytes are exactly the counted ones, and the counter is capped: bounded memory.
 //@ typeinv Decoder d
 //@   inv[C08] 0 <= d.fragmentsSize && d.fragmentsSize <= mpeg4video.MaxFrameSize
+//@   inv[C08] d.fragmentsSize == sumlen(d.fragments, len(d.fragments))
 
 //@ func (d *Decoder) Decode
 //@   opt safety-tag=C08
